@@ -394,6 +394,11 @@ func runCase(seed int64, idx int, pr params) *caseResult {
 						// is one (not after a lost reply: there memory and store may legitimately disagree, see C05)
 						if kind == world.FailAt {
 							c.retryElsewhere(op)
+							if op.Kind == "reload" && op.Topo != nil && c.ownAlarms() == 0 && c.lastOpErr != nil {
+								// the periodic loop retries the reload; the ConfigMap still holds the new text
+								c.Counts["reload_retries_after_failed_reload"]++
+								c.exec(Op{Kind: "reload-retry", Topo: op.Topo}, nil, nil)
+							}
 						}
 					}
 					if merge(c) {
